@@ -1,8 +1,80 @@
 (* C02Proofs.v -- "the active configuration is always a legal, stable statechart configuration".
-   HEADER TO BE COMPLETED AT THE END (status / what is partial). *)
+
+   STATUS: complete for C02_step / C02_run (no admits, all Print Assumptions closed).
+
+   Main theorems
+   -------------
+   Without any chart hypothesis (Section C02):
+     C02_legal_b_sound      Spec.legal_b (the checker the harness runs) <-> legal (the Prop: no duplicates,
+                            root active, parent-closed, exactly one active child per active compound state --
+                            none only without initial state --, all children of an active orthogonal state
+                            active, no active history state, no active final child of the root)
+     C02_Pb_sound           meaning of Spec.Pb_C02
+     C02_stable_iff         create_stabilization_step = None <-> stable (declarative reading)
+     C02_stable / C02_macro_end_stable   after stabilize / after a macro step the configuration is stable
+     C02_no_step_unchanged  execute_once returning None changes neither configuration nor memory
+     C02_final_absorbing    once final (initialised, empty configuration) always final
+     C02_legal_stable       legal -> stable
+   Under the well-formedness hypotheses of Section WF (= DESIGN.md section 2, see below):
+     wk_stable_legal        weak invariant (no duplicates, states exist, parent-closed, at most one active
+                            child per compound) + root active + stable  ->  legal
+     C02_step               Inv st -> execute_once fuel now st = (st', inl _) -> Inv st'
+                            for EVERY evaluator (exec_code/eval_code), every listener (emit), every fuel,
+                            where  Inv i := memory_wf (i_memory i) /\
+                                            (   not initialised /\ cfg = []
+                                             \/ initialised /\ (cfg = [] \/ (legal cfg /\ stable cfg))).
+                            The micro steps of a macro step are computed in advance from the configuration
+                            at the beginning (create_steps) and applied one after the other, each followed
+                            by stabilisation, exactly as in the model/Python code: run_trans_inv shows that
+                            the steps computed in advance are still accurate when they are applied, because
+                            simultaneously fired transitions work in different regions (indep) and every
+                            transition + its stabilisation only touches its own region (micro_ok,
+                            stab_step_touch).
+     C02_run / C02_run_init Inv along any sequence of queue / execute_once operations that return normally
+                            (C05Proofs.runs), in particular from init_istate.
+   For charts accepted by the decidable checker (after the sections):
+     wf_chart_b, wf_chart_b_sound : wf_chart_b sc = true -> exists r, WF sc r   (all Section WF hypotheses)
+     C02_step_checked, C02_run_checked (headline: from the initial state, after every normally returning
+                            operation the configuration is [] or legal_b /\ no stabilisation step is due)
+   Non-vacuity: Module C02Example -- an 18-state chart with a nested orthogonal state, a shallow and a deep
+     history state (the deep one is an initial state), a transition from outside an orthogonal state to a
+     state nested in a region of a nested orthogonal state, three transitions on one event in three regions;
+     wf_chart_b = true by vm_compute, a chart with a cross-region transition is rejected, a 10-step run of
+     the model is shown, and C02_run_checked is instantiated (c02_example_theorem).
+
+   Hypotheses of Section WF and their justification (DESIGN.md section 2)
+   ----------------------------------------------------------------------
+     Hroot, Hroot_par, Hone_root     WF2: exactly one root
+     Hne, Hnames                     WF1: names are non-empty; the key of a state is its name
+     Hanc                            WF2: acyclic (depth decreases along ancestors_for; checker from C01Proofs)
+     Hpc, Hkids_nodup, Hdesc_complete  WF2: _parent and _children are mutually consistent, no duplicates
+                                     (Hdesc_complete: descendants_for is the inverse of ancestors_for)
+     Hcomposite                      WF3: only compound/orthogonal states have children
+     Hinitial                        WF4: a declared initial state is a direct child
+     Hregions                        WF5: no final state directly below an orthogonal state
+     Hhistory                        WF6: a history state has a compound parent, its default memory is a sibling
+     Hcross                          WF7a: no transition crosses between sibling regions of an orthogonal state
+     Htarget                         WF7 + WF1: the target of a transition, when present, is not the empty
+                                     name (the code tests `if t.target`-style truthiness in stays_below).
+   NOT needed: WF7b (history entered from outside its parent) -- it matters for C06, not for legality;
+   "a compound state has a non-history child" and "compound states declare an initial state" (a compound
+   state without initial state is a legal leaf, as in Spec.legal_b).
+   The C04 guarantee about simultaneously fired transitions is NOT assumed: it is derived inside
+   compute_steps_init from the model itself (sort_transitions fails unless check_pairs = None) together with
+   C01_selection (no selected source is an ancestor of another one), see check_pair_indep.
+
+   memory_wf is the part of "every recorded memory is a legal sub-configuration below parent(H)" that
+   legality needs: all remembered states lie strictly below parent(H), are parent-closed relative to it and
+   contain at most one child per compound state.  It is established by record_history whenever the
+   configuration at the beginning of the micro step satisfies the weak invariant (hist_rec_mwf).
+
+   Partial / missing
+   -----------------
+   C02_stabilize_terminates (optional item): see the end of Section WF / the report. *)
 From Coq Require Import String List Bool ZArith Sorted Permutation Lia.
 From Sismic Require Import Base Chart Interp Spec.
 From SismicProofs Require Import SortLib FrameLib C01Proofs.
+From SismicProofs Require C05Proofs.   (* only for the definition of operation sequences (runs) *)
 Import ListNotations.
 Open Scope list_scope.
 
@@ -884,6 +956,8 @@ Section C02.
     Hypothesis Hcross : forall t tgt O os R1 R2, In t (c_transitions sc) -> t_target t = Some tgt ->
       state_for sc O = Some os -> s_kind os = KOrthogonal -> par R1 = Some O -> par R2 = Some O ->
       under R1 (t_source t) -> under R2 tgt -> R1 = R2.
+    (* WF7 + WF1: the target of a transition, when present, is a state, hence not the empty name *)
+    Hypothesis Htarget : forall t tgt, In t (c_transitions sc) -> t_target t = Some tgt -> tgt <> ""%string.
 
     (* ---------------------------------------------------------------- ancestors *)
     Lemma truthy_some (p : name) : p <> ""%string -> truthy (@Some name p) = @Some name p.
@@ -1597,6 +1671,1270 @@ Section C02.
         apply H; apply (no_kids_of_kind n st Est); rewrite K; discriminate.
     Qed.
 
+    (* ---------------------------------------------------------------- least common ancestor *)
+    Lemma find_anc_first (f : name -> bool) l : forall x, find f (anc x) = Some l ->
+      In l (anc x) /\ f l = true /\ forall c, In c (anc x) -> f c = true -> c = l \/ In c (anc l).
+    Proof.
+      apply (anc_ind (fun x => find f (anc x) = Some l ->
+        In l (anc x) /\ f l = true /\ forall c, In c (anc x) -> f c = true -> c = l \/ In c (anc l))).
+      intros x IH H. destruct (par x) as [p|] eqn:Hp.
+      - rewrite (anc_some x p Hp) in H. rewrite (anc_some x p Hp). simpl in H. destruct (f p) eqn:Fp.
+        + inversion H; subst p. split; [left; reflexivity|]. split; [exact Fp|].
+          intros c [<-|Hc] _; [left; reflexivity|right; exact Hc].
+        + destruct (IH p eq_refl H) as (A & B & C). split; [right; exact A|]. split; [exact B|].
+          intros c [<-|Hc] Fc; [congruence|]. apply C; assumption.
+      - rewrite (anc_none x Hp) in H. discriminate.
+    Qed.
+
+    Lemma lca_spec a b l : least_common_ancestor sc a b = Some l ->
+      In l (anc a) /\ In l (anc b)
+      /\ forall c, In c (anc a) -> In c (anc b) -> c = l \/ In c (anc l).
+    Proof.
+      unfold least_common_ancestor. intros H. apply find_anc_first in H. destruct H as (A & B & C).
+      split; [exact A|]. split; [apply mem_In, B|]. intros c Ha Hb. apply C; [exact Ha|apply mem_In, Hb].
+    Qed.
+
+    Lemma lca_none a b c : least_common_ancestor sc a b = None -> In c (anc a) -> ~ In c (anc b).
+    Proof.
+      unfold least_common_ancestor. intros H Ha Hb. pose proof (find_none _ _ H c Ha) as F.
+      apply mem_In in Hb. simpl in F. congruence.
+    Qed.
+
+    (* the scope of a transition with a target: its LCA and the child of the LCA that is exited *)
+    Definition tlca (t : transition) : option name :=
+      match t_target t with Some tgt => least_common_ancestor sc (t_source t) tgt | None => None end.
+    Definition tlbl (t : transition) : name := last_before (tlca t) (anc (t_source t)) (t_source t).
+
+    Lemma create_step_some cfg ev it tgt : t_target (snd it) = Some tgt ->
+      ms_entered (create_step sc cfg ev it) = entered_path (tlca (snd it)) (anc tgt) [tgt]
+      /\ ms_exited (create_step sc cfg ev it)
+         = filter (fun d => mem d cfg) (sort (exit_order_leb sc) (desc (tlbl (snd it))))
+           ++ (if mem (tlbl (snd it)) cfg then [tlbl (snd it)] else []).
+    Proof. intros H. unfold create_step, tlbl, tlca. rewrite H. split; reflexivity. Qed.
+
+    Lemma create_step_none cfg ev it : t_target (snd it) = None ->
+      ms_entered (create_step sc cfg ev it) = [] /\ ms_exited (create_step sc cfg ev it) = [].
+    Proof. intros H. unfold create_step. rewrite H. split; reflexivity. Qed.
+
+    Lemma tlca_spec t tgt l : t_target t = Some tgt -> tlca t = Some l ->
+      In l (anc (t_source t)) /\ In l (anc tgt).
+    Proof.
+      unfold tlca. intros -> H. apply lca_spec in H. tauto.
+    Qed.
+
+    Lemma tlbl_spec t tgt : t_target t = Some tgt ->
+      under (tlbl t) (t_source t) /\ par (tlbl t) = tlca t.
+    Proof.
+      intros H. apply last_before_spec. intros l El. exact (proj1 (tlca_spec t tgt l H El)).
+    Qed.
+
+    (* R is a region: a child of an orthogonal state *)
+    Definition region (R : name) : Prop :=
+      exists O os, par R = Some O /\ state_for sc O = Some os /\ s_kind os = KOrthogonal.
+    (* source and target of t lie inside the subtree of R *)
+    Definition inside (R : name) (t : transition) : Prop :=
+      under R (t_source t) /\ forall tgt, t_target t = Some tgt -> under R tgt.
+
+    Lemma chain_under R O l y z : par R = Some O -> (O = l \/ In O (anc l)) ->
+      In l (anc y) -> under y z -> under R z -> under R y.
+    Proof.
+      intros PR HO Hl Uy UR.
+      assert (In y (anc R) -> False) as Hno.
+      { intros Hy. rewrite (anc_some R O PR) in Hy.
+        assert (depth y <= depth O)%Z as D1 by (destruct Hy as [<-|Hy]; [lia|apply Hanc in Hy; lia]).
+        assert (depth l < depth y)%Z as D2 by (apply Hanc, Hl).
+        assert (depth O <= depth l)%Z as D3 by (destruct HO as [<-|HO]; [lia|apply Hanc in HO; lia]).
+        lia. }
+      destruct Uy as [->|Uy], UR as [->|UR].
+      - apply under_refl.
+      - right. exact UR.
+      - exfalso. exact (Hno Uy).
+      - destruct (anc_chain z y R Uy UR) as [->|[H|H]];
+          [apply under_refl|exfalso; exact (Hno H)|right; exact H].
+    Qed.
+
+    (* everything a transition inside R exits or enters lies inside R *)
+    Lemma trans_local R O t tgt : par R = Some O -> inside R t -> t_target t = Some tgt ->
+      (forall x, under (tlbl t) x -> under R x)
+      /\ (forall x, under x tgt -> below (tlca t) x -> under R x).
+    Proof.
+      intros PR [Us Ut] Ht. specialize (Ut tgt Ht).
+      pose proof (par_under_anc R O _ PR Us) as Os. pose proof (par_under_anc R O _ PR Ut) as Ot.
+      destruct (tlbl_spec t tgt Ht) as [Ul Pl].
+      destruct (tlca t) as [l|] eqn:El.
+      - assert (O = l \/ In O (anc l)) as HO.
+        { unfold tlca in El. rewrite Ht in El. apply lca_spec in El. destruct El as (_ & _ & C).
+          apply C; assumption. }
+        split.
+        + intros x Ux. eapply under_trans; [|exact Ux].
+          apply (chain_under R O l (tlbl t) (t_source t) PR HO); [apply anc_par, Pl|exact Ul|exact Us].
+        + intros x Ux Bx. simpl in Bx. exact (chain_under R O l x tgt PR HO Bx Ux Ut).
+      - exfalso. unfold tlca in El. rewrite Ht in El. exact (lca_none _ _ O El Os Ot).
+    Qed.
+
+    (* ---------------------------------------------------------------- history memory stays well formed *)
+    Lemma lookup_dset_eq {V} (h k : name) (v : V) m :
+      lookup h (dset k v m) = if str_eqb h k then Some v else lookup h m.
+    Proof.
+      induction m as [|[k' v'] m IH]; simpl.
+      - destruct (str_eqb h k); reflexivity.
+      - destruct (str_eqb k k') eqn:E; simpl.
+        + apply str_eqb_spec in E. subst k'. destruct (str_eqb h k); reflexivity.
+        + destruct (str_eqb h k') eqn:E2.
+          * apply str_eqb_spec in E2. subst k'. destruct (str_eqb h k) eqn:E3; [|reflexivity].
+            apply str_eqb_spec in E3. subst k. rewrite (proj2 (str_eqb_spec h h) eq_refl) in E. discriminate.
+          * exact IH.
+    Qed.
+
+    Lemma hist_rec_mwf active p child l : wk active -> hist_rec active p child l -> mwf p l.
+    Proof.
+      intros (Hnd & Hex & Hcl & Hamo) (cs & Ecs & [[K ->]|[K [E (c & ->)]]]); unfold sort_names.
+      - split; [|split].
+        + intros x Hx. apply sort_In, filter_In in Hx. destruct Hx as [_ Hx].
+          apply mem_In, desc_iff in Hx. exact Hx.
+        + intros x q Hx Hq. apply sort_In, filter_In in Hx. destruct Hx as [Hx Hd].
+          apply mem_In, desc_iff in Hd. rewrite (anc_some x q Hq) in Hd.
+          destruct Hd as [->|Hd]; [left; reflexivity|right].
+          apply sort_In, filter_In. split; [eapply Hcl; eauto|apply mem_In, desc_iff, Hd].
+        + intros n st c1 c2 Est Kn P1 P2 H1 H2.
+          apply sort_In, filter_In in H1. apply sort_In, filter_In in H2.
+          eapply Hamo; eauto; tauto.
+      - assert (In c (filter (fun n => mem n (kids p)) active)) as Hc by (rewrite <- E; left; reflexivity).
+        apply filter_In in Hc. destruct Hc as [_ Hc]. apply mem_In, Hpc in Hc.
+        split; [|split].
+        + intros x [<-|[]]. apply anc_par. exact Hc.
+        + intros x q [<-|[]] Hq. left. congruence.
+        + intros n st c1 c2 _ _ _ _ [<-|[]] [<-|[]]. reflexivity.
+    Qed.
+
+    Lemma memory_wf_dset m child p l :
+      memory_wf m -> par child = Some p -> mwf p l -> memory_wf (dset child l m).
+    Proof.
+      intros Hm Pc Hl h l' p' Hlk Ph. rewrite lookup_dset_eq in Hlk. destruct (str_eqb h child) eqn:E.
+      - apply str_eqb_spec in E. subst h. inversion Hlk; subst l'. rewrite Pc in Ph.
+        inversion Ph; subst p'. exact Hl.
+      - eapply Hm; eauto.
+    Qed.
+
+    (* the effect of a micro step on configuration (as a set) and memory *)
+    Lemma apply_step_sets step s s' a :
+      apply_step step s = (s', inl a) -> NoDup (i_config (m_i s)) ->
+      NoDup (i_config (m_i s'))
+      /\ (forall x, In x (i_config (m_i s')) <->
+                    (In x (i_config (m_i s)) /\ ~ In x (ms_exited step)) \/ In x (ms_entered step))
+      /\ (forall x, In x (ms_entered step) -> state_for sc x <> None)
+      /\ i_initialized (m_i s') = i_initialized (m_i s)
+      /\ (wk (i_config (m_i s)) -> memory_wf (i_memory (m_i s)) -> memory_wf (i_memory (m_i s')))
+      /\ (ms_entered step = [] -> ms_exited step = [] -> i_config (m_i s') = i_config (m_i s)).
+    Proof.
+      intros H Hnd. apply (apply_step_inv memory_wf) in H.
+      destruct H as (ent & exi & He & Hx & Hc & Hi & Hm & _).
+      destruct (cfg_after_spec (i_config (m_i s)) _ _ ent exi Hnd He Hx) as (N & I & F).
+      rewrite Hc. split; [exact N|]. split; [exact I|]. split; [exact F|]. split; [exact Hi|]. split.
+      - intros Hwk Hmem. apply Hm; [|exact Hmem]. intros st Hst child l m K Hch Hrec Pm.
+        apply memory_wf_dset with (p := s_name st); [exact Pm|apply Hpc, Hch|].
+        eapply hist_rec_mwf; eauto.
+      - intros E1 E2. rewrite E1 in He. rewrite E2 in Hx. simpl in He, Hx.
+        inversion He; inversion Hx; subst. reflexivity.
+    Qed.
+
+    (* a transition micro step computed from cfg0, applied to a configuration that agrees with cfg0
+       below the exited state *)
+    Lemma trans_apply cfg0 ev it tgt s s' a :
+      In (snd it) (c_transitions sc) -> t_target (snd it) = Some tgt ->
+      wk (i_config (m_i s)) -> In (t_source (snd it)) cfg0 ->
+      (forall x, under (tlbl (snd it)) x -> (In x (i_config (m_i s)) <-> In x cfg0)) ->
+      apply_step (create_step sc cfg0 ev it) s = (s', inl a) ->
+      wk (i_config (m_i s')) /\ In r (i_config (m_i s'))
+      /\ (forall x, In x (i_config (m_i s')) <->
+            (In x (i_config (m_i s)) /\ ~ under (tlbl (snd it)) x)
+            \/ (under x tgt /\ below (tlca (snd it)) x))
+      /\ i_initialized (m_i s') = i_initialized (m_i s)
+      /\ (memory_wf (i_memory (m_i s)) -> memory_wf (i_memory (m_i s'))).
+    Proof.
+      intros Hin Ht Hwk Hsrc Hag H. set (t := snd it) in *.
+      destruct (apply_step_sets _ _ _ _ H (proj1 Hwk)) as (N & I & F & Hi & Hm & _).
+      destruct (create_step_some cfg0 ev it tgt Ht) as [Ee Ex]. fold t in Ee, Ex.
+      destruct (tlbl_spec t tgt Ht) as [Ul Pl].
+      assert (forall x, In x (i_config (m_i s')) <->
+                (In x (i_config (m_i s)) /\ ~ under (tlbl t) x) \/ (under x tgt /\ below (tlca t) x)) as Hchar.
+      { intros x. rewrite I, Ee, Ex, exited_spec, entered_spec.
+        - split; (intros [[H1 H2]|H3]; [left; split; [exact H1|]|right; exact H3]).
+          + intros U. apply H2. split; [apply Hag; assumption|exact U].
+          + intros [_ U]. exact (H2 U).
+        - intros l El. exact (proj2 (tlca_spec t tgt l Ht El)). }
+      assert (In (t_source t) (i_config (m_i s))) as Hs by (apply Hag; assumption).
+      destruct (trans_step_wk (i_config (m_i s)) (i_config (m_i s')) (t_source t) tgt (tlca t)) as [W R];
+        try assumption.
+      - intros l El. exact (tlca_spec t tgt l Ht El).
+      - intros l ls e1 El Els K P1 U1. fold (tlbl t). symmetry.
+        apply (Hcross t tgt l ls (tlbl t) e1); try assumption. congruence.
+      - intros x Hx. apply I in Hx. destruct Hx as [[Hx _]|Hx]; [|apply F; exact Hx].
+        destruct Hwk as (_ & Hex & _). apply Hex, Hx.
+      - split; [exact W|]. split; [exact R|]. split; [exact Hchar|]. split; [exact Hi|].
+        intros Hmem. apply Hm; assumption.
+    Qed.
+
+    (* ---------------------------------------------------------------- locality of stabilisation *)
+    (* cfg' equals cfg outside the subtree of R *)
+    Definition differs_under (R : name) (cfg cfg' : list name) : Prop :=
+      forall x, ~ under R x -> (In x cfg' <-> In x cfg).
+
+    Lemma under_dec R x : {under R x} + {~ under R x}.
+    Proof.
+      unfold under. destruct (string_dec x R) as [E|E]; [left; left; exact E|].
+      destruct (in_dec string_dec R (anc x)) as [H|H]; [left; right; exact H|right; tauto].
+    Qed.
+
+    Lemma child_under R n x : under R n -> par x = Some n -> under R x /\ x <> R.
+    Proof.
+      intros U P. split.
+      - eapply under_trans; [exact U|right; apply anc_par, P].
+      - intros ->. destruct U as [->|U].
+        + apply (anc_irr R). apply anc_par, P.
+        + apply (anc_asym R n U). apply anc_par, P.
+    Qed.
+
+    Lemma mwf_single p m0 : par m0 = Some p -> mwf p [m0].
+    Proof.
+      intros Pm. split; [|split].
+      - intros x [<-|[]]. apply anc_par, Pm.
+      - intros x q [<-|[]] Hq. left. congruence.
+      - intros n0 st0 c1 c2 _ _ _ _ [<-|[]] [<-|[]]. reflexivity.
+    Qed.
+
+    Lemma stab_leaf_history m n st step :
+      state_for sc n = Some st -> is_history (s_kind st) = true -> memory_wf m ->
+      stab_for_leaf sc m n = Some (inl step) ->
+      exists p ps l, par n = Some p /\ state_for sc p = Some ps /\ s_kind ps = KCompound
+        /\ mwf p l /\ ms_exited step = [n] /\ forall x, In x (ms_entered step) <-> In x l.
+    Proof.
+      intros Est Hh Hmem Hs. destruct (Hhistory n st Est Hh) as (p & ps & Pn & Eps & Kps & Hdef).
+      exists p, ps. unfold stab_for_leaf in Hs. rewrite Est in Hs.
+      destruct (s_kind st); try discriminate Hh;
+        (destruct (lookup n m) as [l|] eqn:El;
+         [ inversion Hs; subst step; exists l; split; [exact Pn|]; split; [exact Eps|]; split; [exact Kps|];
+           split; [eapply Hmem; eauto|]; split; [reflexivity|]; intros x; simpl; apply sort_In
+         | destruct (s_memory st) as [m0|] eqn:Em; [|discriminate]; inversion Hs; subst step;
+           exists [m0]; split; [exact Pn|]; split; [exact Eps|]; split; [exact Kps|];
+           split; [apply mwf_single, Hdef; reflexivity|]; split; [reflexivity|]; intros x; simpl; tauto ]).
+    Qed.
+
+    (* a stabilisation step of a configuration that differs from a stable one only inside the region R
+       (R itself active) touches only states strictly inside R *)
+    Lemma stab_step_touch (i : ist) step R ref :
+      css i = Some (inl step) -> memory_wf (i_memory i) ->
+      region R -> stable ref -> differs_under R ref (i_config i) -> In R (i_config i) ->
+      forall x, In x (ms_exited step) \/ In x (ms_entered step) -> under R x /\ x <> R.
+    Proof.
+      intros Hcss Hmem (O & os & PR & EO & KO) [Hleafs Horth] Hd HR.
+      apply css_some in Hcss. destruct Hcss as [(n & [Hn Hleaf] & Hs)|(n & Hn & Hs)].
+      - assert (under R n) as Un.
+        { destruct (under_dec R n) as [U|U]; [exact U|exfalso].
+          assert (In n ref) as Hnr by (apply (proj1 (Hd n U)), Hn).
+          assert (is_leaf ref n) as Hl.
+          { split; [exact Hnr|]. intros d Hdn Hdr.
+            destruct (under_dec R d) as [Ud|Ud].
+            - apply desc_iff in Hdn. destruct Ud as [->|Ud].
+              + apply (Hleaf R); [apply desc_iff; exact Hdn|exact HR].
+              + destruct (anc_chain d n R Hdn Ud) as [E|[H|H]].
+                * apply U. left. exact E.
+                * apply (Hleaf R); [apply desc_iff; exact H|exact HR].
+                * apply U. right. exact H.
+            - apply (Hleaf d Hdn). apply (proj2 (Hd d Ud)), Hdr. }
+          apply Hleafs in Hl. apply (stab_for_leaf_none (i_memory i)) in Hl. congruence. }
+        destruct (state_for sc n) as [st|] eqn:Est;
+          [|unfold stab_for_leaf in Hs; rewrite Est in Hs; discriminate].
+        destruct (is_history (s_kind st)) eqn:Hh.
+        { destruct (stab_leaf_history _ n st step Est Hh Hmem Hs) as (p & ps & l & Pn & Eps & Kps & Hl & Hx & He).
+          assert (n <> R) as HnR.
+          { intros ->. rewrite PR in Pn. inversion Pn; subst p. rewrite EO in Eps. inversion Eps; subst ps.
+            congruence. }
+          assert (under R p) as Up.
+          { destruct Un as [E|Un]; [contradiction|]. rewrite (anc_some n p Pn) in Un.
+            destruct Un as [<-|Un]; [apply under_refl|right; exact Un]. }
+          intros x [Hx'|Hx'].
+          - rewrite Hx in Hx'. destruct Hx' as [<-|[]]. split; [exact Un|exact HnR].
+          - apply He in Hx'. destruct Hl as (M1 & _ & _). specialize (M1 x Hx').
+            assert (In R (anc x)) as HRx.
+            { destruct Up as [->|Up]; [exact M1|]. eapply anc_tr; [exact M1|exact Up]. }
+            split; [right; exact HRx|]. intros ->. exact (anc_irr R HRx). }
+        unfold stab_for_leaf in Hs. rewrite Est in Hs. destruct (s_kind st) eqn:K; try discriminate.
+        + destruct (truthy (s_initial st)) as [i0|] eqn:Ei; [|discriminate].
+          inversion Hs; subst step. intros x [[]|[<-|[]]].
+          apply (child_under R n); [exact Un|eapply Hinitial; eauto].
+        + destruct (kids n) as [|c l] eqn:Ek; [discriminate|].
+          inversion Hs; subst step. intros x [[]|Hx]. cbn [ms_entered] in Hx.
+          change (insert str_leb c (sort_names l)) with (sort str_leb (c :: l)) in Hx.
+          apply sort_In in Hx. rewrite <- Ek in Hx. apply Hpc in Hx.
+          apply (child_under R n); assumption.
+        + exfalso. destruct (ostr_eqb (par n) (root sc)) eqn:Eo; [|discriminate].
+          apply ostr_eqb_iff in Eo. rewrite Hroot in Eo.
+          destruct Un as [->|Un].
+          * rewrite PR in Eo. inversion Eo; subst O. exact (Hregions r os R st EO KO PR Est K).
+          * rewrite (anc_some n r Eo), (anc_none r Hroot_par) in Un. destruct Un as [<-|[]].
+            rewrite Hroot_par in PR. discriminate.
+      - unfold stab_for_orthogonal in Hs. destruct (state_for sc n) as [st|] eqn:Est; [|discriminate].
+        destruct (s_kind st) eqn:K; try discriminate.
+        destruct (filter (fun ch => negb (mem ch (i_config i))) (kids n)) as [|c l] eqn:Ef; [discriminate|].
+        inversion Hs; subst step. clear Hs.
+        assert (forall x, In x (c :: l) -> par x = Some n /\ ~ In x (i_config i)) as Hmiss.
+        { intros x Hx. rewrite <- Ef in Hx. apply filter_In in Hx. destruct Hx as [Hk Hm].
+          split; [apply Hpc, Hk|]. apply negb_true_iff, mem_false_iff in Hm. exact Hm. }
+        assert (under R n) as Un.
+        { destruct (under_dec R n) as [U|U]; [exact U|exfalso].
+          assert (In n ref) as Hnr by (apply (proj1 (Hd n U)), Hn).
+          destruct (Hmiss c (or_introl eq_refl)) as [Pc Hc].
+          destruct (Horth n Hnr) as (st' & Est' & Hall). rewrite Est in Est'. inversion Est'; subst st'.
+          assert (In c ref) as Hcr by (apply (Hall K), Hpc, Pc).
+          destruct (under_dec R c) as [Uc|Uc].
+          - destruct Uc as [->|Uc]; [exact (Hc HR)|]. rewrite (anc_some c n Pc) in Uc.
+            apply U. destruct Uc as [<-|Uc]; [left; reflexivity|right; exact Uc].
+          - apply Hc. apply (proj2 (Hd c Uc)), Hcr. }
+        intros x [[]|Hx]. cbn [ms_entered] in Hx.
+        change (insert str_leb c (sort_names l)) with (sort str_leb (c :: l)) in Hx.
+        apply sort_In in Hx. apply (child_under R n); [exact Un|apply Hmiss, Hx].
+    Qed.
+
+    Lemma stab_step_local (i : ist) step cfg' R ref :
+      css i = Some (inl step) -> memory_wf (i_memory i) ->
+      region R -> stable ref -> differs_under R ref (i_config i) -> In R (i_config i) ->
+      (forall x, In x cfg' <-> (In x (i_config i) /\ ~ In x (ms_exited step)) \/ In x (ms_entered step)) ->
+      differs_under R ref cfg' /\ In R cfg'.
+    Proof.
+      intros Hcss Hmem HR Hst Hd HRc Hin.
+      pose proof (stab_step_touch i step R ref Hcss Hmem HR Hst Hd HRc) as Ht.
+      split.
+      - intros x U. rewrite Hin. rewrite <- (Hd x U). split.
+        + intros [[H _]|H]; [exact H|]. exfalso. apply U. apply (Ht x). right; exact H.
+        + intros H. left. split; [exact H|]. intros Hx. apply U. apply (Ht x). left; exact Hx.
+      - apply Hin. left. split; [exact HRc|]. intros Hx. destruct (Ht R (or_introl Hx)) as [_ E]. congruence.
+    Qed.
+
+    (* ---------------------------------------------------------------- the stabilisation loop *)
+    Lemma stabilize_inv (K : list name -> Prop) :
+      (forall (i : ist) step cfg', css i = Some (inl step) -> wk (i_config i) -> In r (i_config i) ->
+          memory_wf (i_memory i) -> K (i_config i) ->
+          (forall x, In x cfg' <-> (In x (i_config i) /\ ~ In x (ms_exited step)) \/ In x (ms_entered step)) ->
+          K cfg') ->
+      forall fuel s s' steps, stabilize fuel s = (s', inl steps) ->
+        J (i_config (m_i s)) -> memory_wf (i_memory (m_i s)) -> K (i_config (m_i s)) ->
+        J (i_config (m_i s')) /\ memory_wf (i_memory (m_i s')) /\ K (i_config (m_i s'))
+        /\ i_initialized (m_i s') = i_initialized (m_i s) /\ css (m_i s') = None.
+    Proof.
+      intros HK. induction fuel as [|f IH]; intros s s' steps H HJ Hmem Hk; simpl in H; [discriminate|].
+      rewrite bind_get in H. destruct (css (m_i s)) as [[step|e]|] eqn:E.
+      - apply bind_ok in H. destruct H as (a & s1 & H1 & H).
+        apply bind_ok in H. destruct H as (rr & s2 & H2 & H). inversion H; subst s2. clear H.
+        destruct HJ as [Hwk [Hnil|Hr]]; [rewrite (css_nil _ Hnil) in E; discriminate|].
+        destruct (apply_step_sets _ _ _ _ H1 (proj1 Hwk)) as (N & I & F & Hi & Hm & _).
+        assert (J (i_config (m_i s1))) as HJ1 by (eapply stab_step_J; eauto).
+        destruct (IH s1 s' rr H2 HJ1 (Hm Hwk Hmem)) as (A & B & C & D & G).
+        { eapply HK; eauto. }
+        split; [exact A|]. split; [exact B|]. split; [exact C|]. split; [congruence|exact G].
+      - discriminate.
+      - inversion H; subst. auto.
+    Qed.
+
+    (* ---------------------------------------------------------------- one transition, then stabilisation *)
+    Lemma region_not_root R : region R -> ~ under R r.
+    Proof.
+      intros (O & os & PR & _) [E|H].
+      - rewrite <- E in PR. rewrite Hroot_par in PR. discriminate.
+      - rewrite (anc_none r Hroot_par) in H. destruct H.
+    Qed.
+
+    Lemma micro_ok fuel cfg0 ev it s s1 s2 a ss :
+      In (snd it) (c_transitions sc) -> In (t_source (snd it)) cfg0 ->
+      wk (i_config (m_i s)) -> In r (i_config (m_i s)) -> stable (i_config (m_i s)) ->
+      memory_wf (i_memory (m_i s)) ->
+      (forall tgt, t_target (snd it) = Some tgt ->
+         forall x, under (tlbl (snd it)) x -> (In x (i_config (m_i s)) <-> In x cfg0)) ->
+      apply_step (create_step sc cfg0 ev it) s = (s1, inl a) ->
+      stabilize fuel s1 = (s2, inl ss) ->
+      J (i_config (m_i s2)) /\ memory_wf (i_memory (m_i s2)) /\ css (m_i s2) = None
+      /\ i_initialized (m_i s2) = i_initialized (m_i s)
+      /\ (forall R, region R -> inside R (snd it) -> differs_under R (i_config (m_i s)) (i_config (m_i s2))).
+    Proof.
+      intros Hin Hsrc Hwk Hr Hst Hmem Hag H1 H2. set (t := snd it) in *.
+      destruct (t_target t) as [tgt|] eqn:Ht.
+      - specialize (Hag tgt eq_refl).
+        destruct (trans_apply cfg0 ev it tgt s s1 a Hin Ht Hwk Hsrc Hag H1) as (W1 & R1 & Hchar & Hi1 & Hm1).
+        fold t in Hchar.
+        set (K := fun c => forall R, region R -> inside R t ->
+                               differs_under R (i_config (m_i s)) c /\ In R c).
+        destruct (tlbl_spec t tgt Ht) as [Ul Pl].
+        assert (In (t_source t) (i_config (m_i s))) as Hs by (apply Hag; assumption).
+        assert (K (i_config (m_i s1))) as K1.
+        { intros R HR HI. pose proof HR as (O & os & PR & EO & KO).
+          destruct (trans_local R O t tgt PR HI Ht) as [L1 L2]. split.
+          - intros x U. rewrite Hchar. split.
+            + intros [[H _]|[H3 H4]]; [exact H|]. exfalso. apply U. apply L2; assumption.
+            + intros H. left. split; [exact H|]. intros U'. apply U, L1, U'.
+          - apply Hchar. destruct (under_dec (tlbl t) R) as [U|U].
+            + right. assert (tlbl t = R) as E by (apply under_antisym; [exact U|apply L1, under_refl]).
+              split; [apply HI; exact Ht|]. rewrite <- Pl, E, PR. simpl. apply anc_par, PR.
+            + left. split; [|exact U].
+              destruct Hwk as (_ & _ & Hcl & _). exact (pclosed_under _ R _ Hcl Hs (proj1 HI)). }
+        destruct (stabilize_inv K) with (fuel := fuel) (s := s1) (s' := s2) (steps := ss)
+          as (A & B & C & D & G); try assumption.
+        + intros i step cfg' Hcss Hwki Hri Hmi Hk Hin' R HR HI.
+          destruct (Hk R HR HI) as [Hd HRc].
+          exact (stab_step_local i step cfg' R (i_config (m_i s)) Hcss Hmi HR Hst Hd HRc Hin').
+        + split; [exact W1|right; exact R1].
+        + apply Hm1, Hmem.
+        + split; [exact A|]. split; [exact B|]. split; [exact G|]. split; [congruence|].
+          intros R HR HI. apply C; assumption.
+      - destruct (create_step_none cfg0 ev it Ht) as [Ee Ex].
+        destruct (apply_step_sets _ _ _ _ H1 (proj1 Hwk)) as (_ & _ & _ & Hi1 & Hm1 & Hsame).
+        specialize (Hsame Ee Ex).
+        assert (css (m_i s1) = None) as Hc by (apply C02_stable_iff; rewrite Hsame; exact Hst).
+        destruct (stabilize_stable fuel s1 s2 ss Hc H2) as [-> _].
+        rewrite Hsame. split; [split; [exact Hwk|right; exact Hr]|]. split; [apply Hm1; assumption|].
+        split; [exact Hc|]. split; [exact Hi1|]. intros R _ _ x _. apply iff_refl.
+    Qed.
+
+    (* ---------------------------------------------------------------- several transitions of one macro step *)
+    (* t and t' work in two different regions of one orthogonal state *)
+    Definition indep (t t' : transition) : Prop :=
+      exists R R', region R /\ region R' /\ R <> R' /\ par R = par R' /\ inside R t /\ inside R' t'.
+
+    Lemma indep_sym t t' : indep t t' -> indep t' t.
+    Proof.
+      intros (R & R' & H1 & H2 & H3 & H4 & H5 & H6). exists R', R.
+      split; [exact H2|]. split; [exact H1|]. split; [congruence|]. split; [congruence|].
+      split; assumption.
+    Qed.
+
+    Lemma run_trans_inv fuel cfg0 ev : forall ts s s' executed,
+      NoDup ts ->
+      (forall it, In it ts -> In (snd it) (c_transitions sc) /\ In (t_source (snd it)) cfg0) ->
+      (forall a b, In a ts -> In b ts -> a <> b -> indep (snd a) (snd b)) ->
+      wk (i_config (m_i s)) -> In r (i_config (m_i s)) -> stable (i_config (m_i s)) ->
+      memory_wf (i_memory (m_i s)) ->
+      (forall it tgt, In it ts -> t_target (snd it) = Some tgt ->
+         forall x, under (tlbl (snd it)) x -> (In x (i_config (m_i s)) <-> In x cfg0)) ->
+      ts <> [] ->
+      run_steps fuel (create_steps sc cfg0 ev ts) s = (s', inl executed) ->
+      J (i_config (m_i s')) /\ memory_wf (i_memory (m_i s')) /\ css (m_i s') = None
+      /\ i_initialized (m_i s') = i_initialized (m_i s).
+    Proof.
+      induction ts as [|it rest IH]; intros s s' executed Hnd Hts Hind Hwk Hr Hst Hmem Hag Hnonempty H;
+        [congruence|].
+      simpl in H.
+      apply bind_ok in H. destruct H as (a & s1 & H1 & H).
+      apply bind_ok in H. destruct H as (ss & s2 & H2 & H).
+      apply bind_ok in H. destruct H as (rr & s3 & H3 & H). inversion H; subst s3. clear H.
+      destruct (Hts it (or_introl eq_refl)) as [Hin Hsrc].
+      destruct (micro_ok fuel cfg0 ev it s s1 s2 a ss Hin Hsrc Hwk Hr Hst Hmem) as (A & B & C & D & L);
+        try assumption.
+      { intros tgt Ht. apply (Hag it tgt); [left; reflexivity|exact Ht]. }
+      destruct rest as [|b rest'].
+      - simpl in H3. inversion H3; subst s'. auto.
+      - inversion Hnd as [|? ? Hni Hnd']; subst.
+        assert (forall it', In it' (b :: rest') ->
+                  exists R R', region R /\ region R' /\ R <> R' /\ par R = par R'
+                               /\ inside R (snd it) /\ inside R' (snd it')) as Hpart.
+        { intros it' Hit'. apply Hind; [left; reflexivity|right; exact Hit'|].
+          intros ->. contradiction. }
+        assert (In r (i_config (m_i s2))) as Hr2.
+        { destruct (Hpart b (or_introl eq_refl)) as (R & R' & HR & _ & _ & _ & HI & _).
+          apply (L R HR HI r (region_not_root R HR)). exact Hr. }
+        destruct (IH s2 s' rr) as (A' & B' & C' & D'); try assumption.
+        + intros it' Hit'. apply Hts. right; exact Hit'.
+        + intros x y Hx Hy. apply Hind; right; assumption.
+        + apply A.
+        + apply C02_stable_iff, C.
+        + intros it' tgt Hit' Ht x Ux.
+          destruct (Hpart it' Hit') as (R & R' & HR & HR' & Hne' & Hpar & HI & HI').
+          pose proof HR' as (O & os & PR' & _).
+          destruct (trans_local R' O (snd it') tgt PR' HI' Ht) as [L1 _].
+          assert (~ under R x) as Hnu.
+          { intros U. apply Hne'. apply (same_parent_chain x R R' O U (L1 x Ux)); congruence. }
+          rewrite (L R HR HI x Hnu). apply (Hag it' tgt); [right; exact Hit'|exact Ht|exact Ux].
+        + discriminate.
+        + split; [exact A'|]. split; [exact B'|]. split; [exact C'|]. congruence.
+    Qed.
+
+    (* ---------------------------------------------------------------- what compute_steps delivers *)
+    Lemma index_from_In {A} (l : list A) : forall n i x, In (i, x) (index_from n l) -> In x l.
+    Proof.
+      induction l as [|y l IH]; intros n i x H; simpl in H; [destruct H|].
+      destruct H as [E|H]; [inversion E; left; reflexivity|right; eapply IH; eauto].
+    Qed.
+
+    Lemma In_itransitions it : In it (itransitions sc) -> In (snd it) (c_transitions sc).
+    Proof. destruct it as [i t]. unfold itransitions. apply index_from_In. Qed.
+
+    Lemma fires_facts i ev cfg a :
+      fires ctx eval_code sc i ev cfg a -> In (snd a) (c_transitions sc) /\ In (t_source (snd a)) cfg.
+    Proof.
+      intros (Ia & Ca & _). split; [apply In_itransitions, Ia|].
+      apply mem_In. destruct Ca as [[_ (H & _)]|[_ (H & _)]]; exact H.
+    Qed.
+
+    Lemma fires_not_inner i ev cfg a b :
+      fires ctx eval_code sc i ev cfg a -> fires ctx eval_code sc i ev cfg b ->
+      ~ In (t_source (snd b)) (anc (t_source (snd a))).
+    Proof.
+      intros (Ia & Ca & _) (_ & _ & Hb & _) H. apply Hb. exists a.
+      split; [exact Ia|]. split; [exact Ca|exact H].
+    Qed.
+
+    Lemma kind_of_some n k : kind_of sc n = Some k -> exists st, state_for sc n = Some st /\ s_kind st = k.
+    Proof.
+      unfold kind_of. destruct (state_for sc n) as [st|]; simpl; [|discriminate].
+      intros H. inversion H. exists st. auto.
+    Qed.
+
+    (* the child of l on the way to the source of t *)
+    Definition rgn (l : name) (t : transition) : name :=
+      last_before (Some l) (anc (t_source t)) (t_source t).
+
+    Lemma stays_inside l t : In t (c_transitions sc) -> In l (anc (t_source t)) ->
+      stays_below sc (Some l) t = true -> par (rgn l t) = Some l /\ inside (rgn l t) t.
+    Proof.
+      intros Hin Hl Hs.
+      destruct (last_before_spec (Some l) (t_source t)) as [U P].
+      { intros l' E. inversion E; subst l'. exact Hl. }
+      fold (rgn l t) in U, P. split; [exact P|]. split; [exact U|].
+      intros tgt Ht. pose proof (Htarget t tgt Hin Ht) as Hne'.
+      unfold stays_below in Hs. rewrite Ht in Hs. fold (rgn l t) in Hs.
+      destruct tgt as [|c tgt']; [congruence|].
+      apply mem_In in Hs. apply under_iff.
+      destruct Hs as [E|Hs]; [left; symmetry; exact E|right; exact Hs].
+    Qed.
+
+    Lemma check_pair_indep t1 t2 :
+      In t1 (c_transitions sc) -> In t2 (c_transitions sc) ->
+      ~ In (t_source t1) (anc (t_source t2)) -> ~ In (t_source t2) (anc (t_source t1)) ->
+      check_pair sc t1 t2 = None -> indep t1 t2.
+    Proof.
+      intros I1 I2 N1 N2 H. unfold check_pair in H.
+      destruct (str_eqb (t_source t1) (t_source t2)) eqn:Es; [discriminate|].
+      destruct (least_common_ancestor sc (t_source t1) (t_source t2)) as [l|] eqn:El; [|discriminate].
+      destruct (kind_of sc l) as [k|] eqn:Ek; [|discriminate].
+      destruct k; try discriminate.
+      destruct (stays_below sc (Some l) t1) eqn:S1; [|discriminate].
+      destruct (stays_below sc (Some l) t2) eqn:S2; [|discriminate]. clear H.
+      apply kind_of_some in Ek. destruct Ek as (os & EO & KO).
+      apply lca_spec in El. destruct El as (L1 & L2 & First).
+      destruct (stays_inside l t1 I1 L1 S1) as [P1 In1].
+      destruct (stays_inside l t2 I2 L2 S2) as [P2 In2].
+      exists (rgn l t1), (rgn l t2).
+      split; [exists l, os; auto|]. split; [exists l, os; auto|].
+      split; [|split; [congruence|split; assumption]].
+      intros E. destruct In1 as [U1 _], In2 as [U2 _]. rewrite <- E in U2.
+      destruct U1 as [E1|U1].
+      - destruct U2 as [E2|U2].
+        + assert (t_source t1 = t_source t2) as H by congruence.
+          apply str_eqb_spec in H. congruence.
+        + apply N1. rewrite E1. exact U2.
+      - destruct U2 as [E2|U2].
+        + apply N2. rewrite E2. exact U1.
+        + destruct (First _ U1 U2) as [E3|H3].
+          * rewrite E3 in P1. apply (anc_irr l). apply anc_par, P1.
+          * apply (anc_asym _ l H3). apply anc_par, P1.
+    Qed.
+
+    Lemma check_against_none t1 : forall rest, check_against sc t1 rest = None ->
+      forall b, In b rest -> check_pair sc t1 (snd b) = None.
+    Proof.
+      induction rest as [|it rest IH]; intros H b Hb; [destruct Hb|]. simpl in H.
+      destruct (check_pair sc t1 (snd it)) eqn:E; [discriminate|].
+      destruct Hb as [<-|Hb]; [exact E|apply IH; assumption].
+    Qed.
+
+    Lemma check_pairs_none : forall ts, check_pairs sc ts = None ->
+      forall a b, In a ts -> In b ts -> a <> b ->
+        check_pair sc (snd a) (snd b) = None \/ check_pair sc (snd b) (snd a) = None.
+    Proof.
+      induction ts as [|it rest IH]; intros H a b Ha Hb Hab; [destruct Ha|]. simpl in H.
+      destruct (check_against sc (snd it) rest) eqn:E; [discriminate|].
+      destruct Ha as [<-|Ha], Hb as [<-|Hb].
+      - congruence.
+      - left. eapply check_against_none; eauto.
+      - right. eapply check_against_none; eauto.
+      - apply IH; assumption.
+    Qed.
+
+    Lemma compute_steps_init s s' steps :
+      i_initialized (m_i s) = true -> compute_steps s = (s', inl steps) ->
+      m_i s' = m_i s /\
+      (steps = [] \/ (exists e, steps = [mkMicro (Some e) None [] [] []])
+       \/ exists ev ts, ts <> [] /\ steps = create_steps sc (i_config (m_i s)) ev ts /\ NoDup ts
+            /\ (forall it, In it ts ->
+                  In (snd it) (c_transitions sc) /\ In (t_source (snd it)) (i_config (m_i s)))
+            /\ (forall a b, In a ts -> In b ts -> a <> b -> indep (snd a) (snd b))).
+    Proof.
+      intros Hi H. unfold Interp.compute_steps in H. rewrite bind_get in H. rewrite Hi in H.
+      simpl negb in H. cbv iota in H.
+      apply bind_ok in H. destruct H as (sel & s1 & H1 & H).
+      apply (C01_selection ctx X eval_code sc Hanc) in H1. destruct H1 as (Hf & Hnd & Hmi & _).
+      apply bind_ok in H. destruct H as (u & s2 & H2 & H).
+      unfold Interp.observe in H2. inversion H2; subst s2 u. clear H2.
+      destruct sel as [|it1 sel].
+      - destruct (select_event (m_i s)) as [e|]; inversion H; subst; simpl;
+          (split; [exact Hmi|]); [right; left; exists e; reflexivity|left; reflexivity].
+      - apply bind_ok in H. destruct H as (ts' & s3 & H3 & H). rewrite bind_get in H.
+        inversion H; subst s' steps. clear H.
+        assert (m_i s3 = m_i s /\ Permutation ts' (it1 :: sel)
+                /\ forall a b, In a (it1 :: sel) -> In b (it1 :: sel) -> a <> b ->
+                     check_pair sc (snd a) (snd b) = None \/ check_pair sc (snd b) (snd a) = None)
+          as (Hm3 & Hperm & Hcp).
+        { unfold Interp.sort_transitions in H3. destruct sel as [|it2 sel].
+          - inversion H3; subst. split; [exact Hmi|]. split; [apply Permutation_refl|].
+            intros a b [<-|[]] [<-|[]] Hab. congruence.
+          - destruct (check_pairs sc (it1 :: it2 :: sel)) eqn:Ecp; [discriminate|].
+            inversion H3; subst. split; [exact Hmi|]. split.
+            { change (Permutation (sort (trans_order_leb sc) (it1 :: it2 :: sel)) (it1 :: it2 :: sel)).
+              apply sort_perm. }
+            apply check_pairs_none, Ecp. }
+        split; [exact Hm3|]. right. right. rewrite Hm3.
+        eexists _, ts'. split.
+        { intros ->. apply Permutation_nil in Hperm. discriminate. }
+        split; [reflexivity|].
+        split; [eapply Permutation_NoDup; [apply Permutation_sym, Hperm|exact Hnd]|].
+        assert (forall it, In it ts' -> fires ctx eval_code sc (m_i s) (select_event (m_i s)) (i_config (m_i s)) it)
+          as Hfires.
+        { intros it Hit. apply Hf. eapply Permutation_in; eauto. }
+        split.
+        + intros it Hit. eapply fires_facts. apply Hfires, Hit.
+        + intros a b Ha Hb Hab.
+          pose proof (Hfires a Ha) as Fa. pose proof (Hfires b Hb) as Fb.
+          destruct (fires_facts _ _ _ _ Fa) as [Ia _]. destruct (fires_facts _ _ _ _ Fb) as [Ib _].
+          pose proof (fires_not_inner _ _ _ _ _ Fa Fb) as Nab.
+          pose proof (fires_not_inner _ _ _ _ _ Fb Fa) as Nba.
+          destruct (Hcp a b) as [C|C];
+            try (eapply Permutation_in; eauto); try exact Hab.
+          * apply check_pair_indep; assumption.
+          * apply indep_sym. apply check_pair_indep; assumption.
+    Qed.
+
+    (* ================================================================ 2. C02_step *)
+    (* the invariant of the interpreter: the history memory is well formed and the configuration is
+       empty before initialisation, empty (final) or legal and stable afterwards *)
+    Definition Inv (i : ist) : Prop :=
+      memory_wf (i_memory i)
+      /\ ((i_initialized i = false /\ i_config i = [])
+          \/ (i_initialized i = true
+              /\ (i_config i = [] \/ (legal (i_config i) /\ stable (i_config i))))).
+
+    Lemma legal_wk cfg : legal cfg -> wk cfg /\ In r cfg.
+    Proof.
+      intros (Hnd & (r' & Er & Hr) & Hs). rewrite Hroot in Er. inversion Er; subst r'.
+      split; [|exact Hr]. split; [exact Hnd|]. split.
+      - intros n Hn. destruct (Hs n Hn) as (st & E & _). congruence.
+      - split.
+        + intros n p Hn Hp. destruct (Hs n Hn) as (st & _ & Hpar & _). apply Hpar, Hp.
+        + intros n st c1 c2 Est K P1 P2 H1 H2.
+          assert (In n cfg) as Hn.
+          { destruct (Hs c1 H1) as (st1 & _ & Hpar & _). apply Hpar, P1. }
+          destruct (Hs n Hn) as (st' & E' & _ & _ & Hc & _). rewrite Est in E'. inversion E'; subst st'.
+          assert (forall c, par c = Some n -> In c cfg -> In c (active_children cfg n)) as Hac.
+          { intros c Pc Hc'. apply filter_In. split; [apply Hpc, Pc|apply mem_In, Hc']. }
+          pose proof (Hac c1 P1 H1) as A1. pose proof (Hac c2 P2 H2) as A2.
+          destruct (Hc K) as [(c & E)|[E _]]; rewrite E in A1, A2.
+          * destruct A1 as [<-|[]], A2 as [<-|[]]. reflexivity.
+          * destruct A1.
+    Qed.
+
+    Lemma J_stable_Inv (i : ist) :
+      J (i_config i) -> css i = None -> memory_wf (i_memory i) -> i_initialized i = true -> Inv i.
+    Proof.
+      intros [Hwk Hc] Hcss Hmem Hi. split; [exact Hmem|]. right. split; [exact Hi|].
+      destruct Hc as [Hc|Hr]; [left; exact Hc|right].
+      apply C02_stable_iff in Hcss. split; [apply wk_stable_legal; assumption|exact Hcss].
+    Qed.
+
+    Lemma compute_steps_uninit s s' steps :
+      i_initialized (m_i s) = false -> compute_steps s = (s', inl steps) ->
+      steps = [mkMicro None None [r] [] []] /\ i_config (m_i s') = i_config (m_i s)
+      /\ i_memory (m_i s') = i_memory (m_i s) /\ i_initialized (m_i s') = true.
+    Proof.
+      intros Hi H. unfold Interp.compute_steps in H. rewrite bind_get in H. rewrite Hi in H.
+      simpl negb in H. cbv iota in H. rewrite Hroot in H.
+      apply bind_ok in H. destruct H as (u & s1 & H1 & H). unfold Interp.put in H1.
+      inversion H1; subst. inversion H; subst. simpl. auto.
+    Qed.
+
+    (* the very first step: enter the root, stabilise *)
+    Lemma run_root_step fuel s s' executed :
+      i_config (m_i s) = [] -> memory_wf (i_memory (m_i s)) ->
+      run_steps fuel [mkMicro None None [r] [] []] s = (s', inl executed) ->
+      J (i_config (m_i s')) /\ memory_wf (i_memory (m_i s')) /\ css (m_i s') = None
+      /\ i_initialized (m_i s') = i_initialized (m_i s).
+    Proof.
+      intros Hc Hmem H. simpl in H.
+      apply bind_ok in H. destruct H as (a & s1 & H1 & H).
+      apply bind_ok in H. destruct H as (ss & s2 & H2 & H).
+      apply bind_ok in H. destruct H as (rr & s3 & H3 & H). inversion H3; subst s3 rr. inversion H; subst s2.
+      clear H H3.
+      assert (NoDup (i_config (m_i s))) as Hnd0 by (rewrite Hc; constructor).
+      destruct (apply_step_sets _ _ _ _ H1 Hnd0) as (N & I & F & Hi & Hm & _).
+      cbn [ms_entered ms_exited] in I, F. rewrite Hc in I, Hm.
+      assert (forall x, In x (i_config (m_i s1)) <-> x = r) as I'.
+      { intros x. rewrite I. simpl. split; [intros [[[] _]|[E|[]]]; auto|intros ->; right; left; reflexivity]. }
+      assert (wk (i_config (m_i s1))) as W1.
+      { split; [exact N|]. split; [intros x Hx; apply F; apply I' in Hx; left; auto|]. split.
+        - intros x q Hx Hq. apply I' in Hx. subst x. congruence.
+        - intros n st c1 c2 _ _ _ _ X1 X2. apply I' in X1. apply I' in X2. congruence. }
+      destruct (stabilize_inv (fun _ => True)) with (fuel := fuel) (s := s1) (s' := s') (steps := ss)
+        as (A & B & _ & D & G); auto.
+      - split; [exact W1|right; apply I'; reflexivity].
+      - apply Hm; [apply wk_nil|exact Hmem].
+      - split; [exact A|]. split; [exact B|]. split; [exact G|congruence].
+    Qed.
+
+    (* an event without transition: nothing changes *)
+    Lemma run_event_step fuel e s s' executed :
+      wk (i_config (m_i s)) -> memory_wf (i_memory (m_i s)) -> css (m_i s) = None ->
+      run_steps fuel [mkMicro (Some e) None [] [] []] s = (s', inl executed) ->
+      i_config (m_i s') = i_config (m_i s) /\ memory_wf (i_memory (m_i s'))
+      /\ i_initialized (m_i s') = i_initialized (m_i s).
+    Proof.
+      intros Hwk Hmem Hcss H. simpl in H.
+      apply bind_ok in H. destruct H as (a & s1 & H1 & H).
+      apply bind_ok in H. destruct H as (ss & s2 & H2 & H).
+      apply bind_ok in H. destruct H as (rr & s3 & H3 & H). inversion H3; subst s3 rr. inversion H; subst s2.
+      clear H H3.
+      destruct (apply_step_sets _ _ _ _ H1 (proj1 Hwk)) as (_ & _ & _ & Hi & Hm & Hsame).
+      specialize (Hsame eq_refl eq_refl).
+      assert (css (m_i s1) = None) as Hc1.
+      { apply C02_stable_iff. rewrite Hsame. apply C02_stable_iff, Hcss. }
+      destruct (stabilize_stable fuel s1 s' ss Hc1 H2) as [-> _].
+      split; [exact Hsame|]. split; [apply Hm; assumption|exact Hi].
+    Qed.
+
+    Lemma step_initialized fuel steps (s1 s2 s3 : mst) res :
+      i_initialized (m_i s1) = true -> compute_steps s1 = (s2, inl steps) ->
+      macro_part ctx X exec_code eval_code emit sc fuel steps s2 = (s3, inl res) ->
+      memory_wf (i_memory (m_i s1)) ->
+      (i_config (m_i s1) = [] \/ (legal (i_config (m_i s1)) /\ stable (i_config (m_i s1)))) ->
+      Inv (m_i s3).
+    Proof.
+      intros Hi H2 H3 Hmem Hcase.
+      destruct (compute_steps_init s1 s2 steps Hi H2) as (Hm2 & Hsteps).
+      assert (Inv (m_i s1)) as Hinv1 by (split; [exact Hmem|right; split; assumption]).
+      assert (wk (i_config (m_i s1)) /\ css (m_i s1) = None) as [Hwk Hcss].
+      { destruct Hcase as [Hc|[Hl Hs]].
+        - rewrite Hc. split; [apply wk_nil|apply css_nil, Hc].
+        - split; [apply legal_wk, Hl|apply C02_stable_iff, Hs]. }
+      apply macro_part_inv in H3.
+      destruct H3 as [(_ & _ & ->)|(s4 & executed & Hne' & (S1 & S2 & S3) & Hrun & _)];
+        [rewrite Hm2; exact Hinv1|].
+      rewrite Hm2 in S1, S2, S3.
+      destruct Hsteps as [->|[(e & ->)|(ev & ts & Hts & -> & Hnd & Hfacts & Hind)]]; [congruence| |].
+      - destruct (run_event_step fuel e s4 s3 executed) as (A & B & C); try assumption.
+        + rewrite S1. exact Hwk.
+        + rewrite S3. exact Hmem.
+        + apply C02_stable_iff. rewrite S1. apply C02_stable_iff, Hcss.
+        + split; [exact B|]. right. split; [congruence|]. rewrite A, S1. exact Hcase.
+      - destruct Hcase as [Hc|[Hl Hs]].
+        { exfalso. destruct ts as [|it ts]; [congruence|].
+          destruct (Hfacts it (or_introl eq_refl)) as [_ Hsrc]. rewrite Hc in Hsrc. destruct Hsrc. }
+        destruct (legal_wk _ Hl) as [_ Hr].
+        destruct (run_trans_inv fuel (i_config (m_i s1)) ev ts s4 s3 executed) as (A & B & C & D);
+          try assumption; try (rewrite S1; assumption); try (rewrite S3; assumption).
+        + intros it tgt _ _ x _. rewrite S1. apply iff_refl.
+        + apply J_stable_Inv; try assumption. congruence.
+    Qed.
+
+    Theorem C02_step fuel now s s' res :
+      Inv (m_i s) -> execute_once fuel now s = (s', inl res) -> Inv (m_i s').
+    Proof.
+      intros [Hmem Hcase] H. apply execute_once_inv in H.
+      destruct H as (s1 & s2 & s3 & steps & H1 & H2 & H3 & H4). rewrite H4.
+      assert (i_config (m_i s1) = i_config (m_i s) /\ i_memory (m_i s1) = i_memory (m_i s)
+              /\ i_initialized (m_i s1) = i_initialized (m_i s)) as (E1 & E2 & E3).
+      { rewrite H1. simpl. auto. }
+      destruct Hcase as [[Hi Hc]|[Hi Hcase]].
+      - (* first call: initialisation *)
+        rewrite <- E3 in Hi. destruct (compute_steps_uninit s1 s2 steps Hi H2) as (-> & C1 & C2 & C3).
+        apply macro_part_inv in H3.
+        destruct H3 as [(Habs & _)|(s4 & executed & _ & (S1 & S2 & S3) & Hrun & _)]; [discriminate|].
+        destruct (run_root_step fuel s4 s3 executed) as (A & B & C & D); try assumption.
+        + congruence.
+        + rewrite S3, C2, E2. exact Hmem.
+        + apply J_stable_Inv; try assumption. congruence.
+      - apply (step_initialized fuel steps s1 s2 s3 res);
+          [congruence|exact H2|exact H3|rewrite E2; exact Hmem|rewrite E1; exact Hcase].
+    Qed.
+
+    (* ================================================================ 3. C02_run *)
+    Lemma Inv_queue_event (i : ist) e : Inv i -> Inv (queue_event i e).
+    Proof. unfold queue_event. destruct (e_kind e); intros H; exact H. Qed.
+
+    Lemma Inv_init id now ignore (c0 : ctx) : Inv (init_istate id now ignore c0).
+    Proof.
+      split; [|left; split; reflexivity]. intros h l p Hl. simpl in Hl. discriminate.
+    Qed.
+
+    (* Inv is preserved along any sequence of queue / execute_once calls that return normally
+       (C05Proofs.runs: queue e always returns; an execute_once that raises ends the sequence) *)
+    Theorem C02_run ops s ms s' :
+      C05Proofs.runs ctx X exec_code eval_code emit sc ops s ms s' -> Inv (m_i s) -> Inv (m_i s').
+    Proof.
+      induction 1 as [s|e ops s ms s' Hr IH|fuel now ops s s1 m ms s' He Hr IH]; intros HI.
+      - exact HI.
+      - apply IH. unfold Interp.queue, Interp.modify. simpl. apply Inv_queue_event, HI.
+      - apply IH. eapply C02_step; eauto.
+    Qed.
+
+    Corollary C02_run_init ops id now ignore (c0 : ctx) x tr ms s' :
+      C05Proofs.runs ctx X exec_code eval_code emit sc ops (mkM (init_istate id now ignore c0) x tr) ms s' ->
+      Inv (m_i s').
+    Proof. intros H. eapply C02_run; [exact H|]. apply Inv_init. Qed.
+
   End WF.
 
 End C02.
+
+(* ================================================================== 5. a decidable well-formedness check *)
+(* The hypotheses of Section WF, collected (r is the root). *)
+Definition WF (sc : chart) (r : name) : Prop :=
+  root sc = Some r
+  /\ parent_for sc r = None
+  /\ (forall n, parent_for sc n <> Some ""%string)
+  /\ (forall n st, state_for sc n = Some st -> s_name st = n)
+  /\ (forall a b, In b (ancestors_for sc a) -> (depth_for sc b < depth_for sc a)%Z)
+  /\ (forall c p, In c (children_for sc p) <-> parent_for sc c = Some p)
+  /\ (forall p, NoDup (children_for sc p))
+  /\ (forall a d, In a (ancestors_for sc d) -> In d (descendants_for sc a))
+  /\ (forall n, state_for sc n <> None -> parent_for sc n = None -> n = r)
+  /\ (forall n st, state_for sc n = Some st -> children_for sc n <> [] ->
+        s_kind st = KCompound \/ s_kind st = KOrthogonal)
+  /\ (forall n st i, state_for sc n = Some st -> s_kind st = KCompound ->
+        truthy (s_initial st) = Some i -> parent_for sc i = Some n)
+  /\ (forall n st c cs, state_for sc n = Some st -> s_kind st = KOrthogonal ->
+        parent_for sc c = Some n -> state_for sc c = Some cs -> s_kind cs <> KFinal)
+  /\ (forall h hs, state_for sc h = Some hs -> is_history (s_kind hs) = true ->
+        exists p ps, parent_for sc h = Some p /\ state_for sc p = Some ps /\ s_kind ps = KCompound
+                     /\ (forall m, s_memory hs = Some m -> parent_for sc m = Some p))
+  /\ (forall t tgt O os R1 R2, In t (c_transitions sc) -> t_target t = Some tgt ->
+        state_for sc O = Some os -> s_kind os = KOrthogonal ->
+        parent_for sc R1 = Some O -> parent_for sc R2 = Some O ->
+        under sc R1 (t_source t) -> under sc R2 tgt -> R1 = R2)
+  /\ (forall t tgt, In t (c_transitions sc) -> t_target t = Some tgt -> tgt <> ""%string).
+
+Lemma lookup_In {V} (k : name) (d : list (name * V)) v : lookup k d = Some v -> In (k, v) d.
+Proof.
+  induction d as [|[k' v'] d IH]; simpl; intros H; [discriminate|].
+  destruct (str_eqb k k') eqn:E.
+  - apply str_eqb_spec in E. inversion H; subst. left; reflexivity.
+  - right. apply IH, H.
+Qed.
+
+Lemma olookup_In {V} (k : option name) (d : list (option name * V)) v :
+  olookup k d = Some v -> In (k, v) d.
+Proof.
+  induction d as [|[k' v'] d IH]; simpl; intros H; [discriminate|].
+  destruct (opt_eqb str_eqb k k') eqn:E.
+  - apply ostr_eqb_iff in E. inversion H; subst. left; reflexivity.
+  - right. apply IH, H.
+Qed.
+
+Lemma par_In sc n p : parent_for sc n = Some p -> In (n, Some p) (c_parent sc).
+Proof.
+  unfold parent_for. destruct (lookup n (c_parent sc)) as [o|] eqn:E; [|discriminate].
+  intros ->. apply lookup_In, E.
+Qed.
+
+Lemma kids_In sc p c : In c (children_for sc p) ->
+  exists l, In (Some p, l) (c_children sc) /\ children_for sc p = l.
+Proof.
+  unfold children_for. destruct (olookup (Some p) (c_children sc)) as [l|] eqn:E; [|intros []].
+  intros _. exists l. split; [apply olookup_In, E|reflexivity].
+Qed.
+
+(* WF1: no empty parent name; the name stored in a state is its key *)
+Definition chk_ne (sc : chart) : bool :=
+  forallb (fun np => negb (ostr_eqb (snd np) (Some ""%string))) (c_parent sc).
+Lemma chk_ne_sound sc : chk_ne sc = true -> forall n, parent_for sc n <> Some ""%string.
+Proof.
+  intros H n Hn. apply par_In in Hn. unfold chk_ne in H. rewrite forallb_forall in H.
+  specialize (H _ Hn). simpl in H. discriminate.
+Qed.
+
+Definition chk_names (sc : chart) : bool :=
+  forallb (fun ns => str_eqb (s_name (snd ns)) (fst ns)) (c_states sc).
+Lemma chk_names_sound sc : chk_names sc = true -> forall n st, state_for sc n = Some st -> s_name st = n.
+Proof.
+  intros H n st Hn. unfold state_for in Hn. apply lookup_In in Hn. unfold chk_names in H.
+  rewrite forallb_forall in H. apply str_eqb_spec. exact (H _ Hn).
+Qed.
+
+(* WF2: _parent and _children agree, no duplicates, descendants_for is complete *)
+Definition chk_pc1 (sc : chart) : bool :=
+  forallb (fun kl => match fst kl with
+                     | Some p => forallb (fun c => ostr_eqb (parent_for sc c) (Some p)) (snd kl)
+                     | None => true
+                     end) (c_children sc).
+Definition chk_pc2 (sc : chart) : bool :=
+  forallb (fun np => match snd np with
+                     | Some p => mem (fst np) (children_for sc p)
+                     | None => true
+                     end) (c_parent sc).
+Lemma chk_pc_sound sc : chk_pc1 sc = true -> chk_pc2 sc = true ->
+  forall c p, In c (children_for sc p) <-> parent_for sc c = Some p.
+Proof.
+  intros H1 H2 c p. split.
+  - intros Hc. destruct (kids_In sc p c Hc) as (l & Hl & E). rewrite E in Hc.
+    unfold chk_pc1 in H1. rewrite forallb_forall in H1. specialize (H1 _ Hl). simpl in H1.
+    rewrite forallb_forall in H1. apply ostr_eqb_iff, H1, Hc.
+  - intros Hp. apply par_In in Hp. unfold chk_pc2 in H2. rewrite forallb_forall in H2.
+    specialize (H2 _ Hp). simpl in H2. apply mem_In, H2.
+Qed.
+
+Definition chk_nodup (sc : chart) : bool := forallb (fun kl => nodup_b (snd kl)) (c_children sc).
+Lemma chk_nodup_sound sc : chk_nodup sc = true -> forall p, NoDup (children_for sc p).
+Proof.
+  intros H p. unfold children_for.
+  destruct (olookup (Some p) (c_children sc)) as [l|] eqn:E; [|constructor].
+  apply olookup_In in E. unfold chk_nodup in H. rewrite forallb_forall in H.
+  apply nodup_b_iff. exact (H _ E).
+Qed.
+
+Definition chk_desc (sc : chart) : bool :=
+  forallb (fun d => forallb (fun a => mem d (descendants_for sc a)) (ancestors_for sc d))
+          (map fst (c_parent sc)).
+Lemma chk_desc_sound sc : chk_desc sc = true ->
+  forall a d, In a (ancestors_for sc d) -> In d (descendants_for sc a).
+Proof.
+  intros Hok a d Ha. unfold chk_desc in Hok. rewrite forallb_forall in Hok.
+  destruct (lookup d (c_parent sc)) as [p|] eqn:El.
+  - apply lookup_In_keys in El. specialize (Hok d El). rewrite forallb_forall in Hok.
+    apply mem_In, Hok, Ha.
+  - exfalso. unfold ancestors_for, parent_for in Ha. rewrite El in Ha.
+    destruct (length (c_parent sc)); simpl in Ha; destruct Ha.
+Qed.
+
+Definition chk_one_root (sc : chart) (r : name) : bool :=
+  forallb (fun ns => match parent_for sc (fst ns) with
+                     | None => str_eqb (fst ns) r
+                     | Some _ => true
+                     end) (c_states sc).
+Lemma chk_one_root_sound sc r : chk_one_root sc r = true ->
+  forall n, state_for sc n <> None -> parent_for sc n = None -> n = r.
+Proof.
+  intros H n Hs Hp. unfold state_for in Hs.
+  destruct (lookup n (c_states sc)) as [st|] eqn:E; [|congruence].
+  apply lookup_In in E. unfold chk_one_root in H. rewrite forallb_forall in H.
+  specialize (H _ E). simpl in H. rewrite Hp in H. apply str_eqb_spec, H.
+Qed.
+
+(* WF3 - WF6, state by state *)
+Definition st_composite_b (sc : chart) (ns : name * state) : bool :=
+  match children_for sc (fst ns) with [] => true | _ => is_composite (s_kind (snd ns)) end.
+Definition st_initial_b (sc : chart) (ns : name * state) : bool :=
+  match s_kind (snd ns) with
+  | KCompound => match truthy (s_initial (snd ns)) with
+                 | Some i => ostr_eqb (parent_for sc i) (Some (fst ns))
+                 | None => true
+                 end
+  | _ => true
+  end.
+Definition st_region_b (sc : chart) (ns : name * state) : bool :=
+  match parent_for sc (fst ns) with
+  | Some p => match kind_of sc p with
+              | Some KOrthogonal => negb (kind_eqb (s_kind (snd ns)) KFinal)
+              | _ => true
+              end
+  | None => true
+  end.
+Definition st_history_b (sc : chart) (ns : name * state) : bool :=
+  if is_history (s_kind (snd ns)) then
+    match parent_for sc (fst ns) with
+    | Some p => match state_for sc p with
+                | Some ps => kind_eqb (s_kind ps) KCompound
+                             && match s_memory (snd ns) with
+                                | Some m => ostr_eqb (parent_for sc m) (Some p)
+                                | None => true
+                                end
+                | None => false
+                end
+    | None => false
+    end
+  else true.
+Definition chk_states (sc : chart) : bool :=
+  forallb (fun ns => st_composite_b sc ns && st_initial_b sc ns && st_region_b sc ns && st_history_b sc ns)
+          (c_states sc).
+
+Lemma chk_states_at sc n st : chk_states sc = true -> state_for sc n = Some st ->
+  st_composite_b sc (n, st) = true /\ st_initial_b sc (n, st) = true
+  /\ st_region_b sc (n, st) = true /\ st_history_b sc (n, st) = true.
+Proof.
+  intros H Hs. unfold state_for in Hs. apply lookup_In in Hs. unfold chk_states in H.
+  rewrite forallb_forall in H. specialize (H _ Hs). rewrite !andb_true_iff in H. tauto.
+Qed.
+
+Lemma chk_composite_sound sc : chk_states sc = true ->
+  forall n st, state_for sc n = Some st -> children_for sc n <> [] ->
+    s_kind st = KCompound \/ s_kind st = KOrthogonal.
+Proof.
+  intros H n st Hs Hk. destruct (chk_states_at sc n st H Hs) as (A & _).
+  unfold st_composite_b in A. simpl in A. destruct (children_for sc n); [congruence|].
+  destruct (s_kind st); simpl in A; try discriminate; auto.
+Qed.
+
+Lemma chk_initial_sound sc : chk_states sc = true ->
+  forall n st i, state_for sc n = Some st -> s_kind st = KCompound ->
+    truthy (s_initial st) = Some i -> parent_for sc i = Some n.
+Proof.
+  intros H n st i Hs K Hi. destruct (chk_states_at sc n st H Hs) as (_ & B & _).
+  unfold st_initial_b in B. simpl in B. rewrite K, Hi in B. apply ostr_eqb_iff, B.
+Qed.
+
+Lemma chk_region_sound sc : chk_states sc = true ->
+  forall n st c cs, state_for sc n = Some st -> s_kind st = KOrthogonal ->
+    parent_for sc c = Some n -> state_for sc c = Some cs -> s_kind cs <> KFinal.
+Proof.
+  intros H n st c cs Hs K Hp Hc Kf. destruct (chk_states_at sc c cs H Hc) as (_ & _ & C & _).
+  unfold st_region_b in C. simpl in C. rewrite Hp in C. unfold kind_of in C. rewrite Hs in C.
+  simpl in C. rewrite K, Kf in C. discriminate.
+Qed.
+
+Lemma chk_history_sound sc : chk_states sc = true ->
+  forall h hs, state_for sc h = Some hs -> is_history (s_kind hs) = true ->
+    exists p ps, parent_for sc h = Some p /\ state_for sc p = Some ps /\ s_kind ps = KCompound
+                 /\ (forall m, s_memory hs = Some m -> parent_for sc m = Some p).
+Proof.
+  intros H h hs Hs Hh. destruct (chk_states_at sc h hs H Hs) as (_ & _ & _ & D).
+  unfold st_history_b in D. simpl in D. rewrite Hh in D.
+  destruct (parent_for sc h) as [p|]; [|discriminate].
+  destruct (state_for sc p) as [ps|] eqn:Ep; [|discriminate].
+  apply andb_true_iff in D. destruct D as [D1 D2]. exists p, ps.
+  split; [reflexivity|]. split; [exact Ep|]. split.
+  - destruct (s_kind ps); try discriminate; reflexivity.
+  - intros m Hm. rewrite Hm in D2. apply ostr_eqb_iff, D2.
+Qed.
+
+(* WF7 *)
+Definition tr_target_b (t : transition) : bool :=
+  match t_target t with Some tgt => negb (str_eqb tgt ""%string) | None => true end.
+Definition tr_cross_b (sc : chart) (t : transition) : bool :=
+  match t_target t with
+  | None => true
+  | Some tgt =>
+      forallb (fun R1 =>
+        forallb (fun R2 =>
+          match parent_for sc R1 with
+          | Some o => if ostr_eqb (parent_for sc R2) (Some o)
+                      then match kind_of sc o with Some KOrthogonal => str_eqb R1 R2 | _ => true end
+                      else true
+          | None => true
+          end) (tgt :: ancestors_for sc tgt))
+        (t_source t :: ancestors_for sc (t_source t))
+  end.
+Definition chk_trans (sc : chart) : bool :=
+  forallb (fun t => tr_target_b t && tr_cross_b sc t) (c_transitions sc).
+
+Lemma chk_target_sound sc : chk_trans sc = true ->
+  forall t tgt, In t (c_transitions sc) -> t_target t = Some tgt -> tgt <> ""%string.
+Proof.
+  intros H t tgt Hin Ht ->. unfold chk_trans in H. rewrite forallb_forall in H.
+  specialize (H t Hin). apply andb_true_iff in H. destruct H as [H _].
+  unfold tr_target_b in H. rewrite Ht in H. discriminate.
+Qed.
+
+Lemma chk_cross_sound sc : chk_trans sc = true ->
+  forall t tgt O os R1 R2, In t (c_transitions sc) -> t_target t = Some tgt ->
+    state_for sc O = Some os -> s_kind os = KOrthogonal ->
+    parent_for sc R1 = Some O -> parent_for sc R2 = Some O ->
+    under sc R1 (t_source t) -> under sc R2 tgt -> R1 = R2.
+Proof.
+  intros H t tgt O os R1 R2 Hin Ht EO KO P1 P2 U1 U2. unfold chk_trans in H.
+  rewrite forallb_forall in H. specialize (H t Hin). apply andb_true_iff in H. destruct H as [_ H].
+  unfold tr_cross_b in H. rewrite Ht in H. rewrite forallb_forall in H.
+  specialize (H R1 U1). cbv beta in H. rewrite forallb_forall in H. specialize (H R2 U2).
+  cbv beta in H. rewrite P1 in H. rewrite (proj2 (ostr_eqb_iff _ _) P2) in H.
+  unfold kind_of in H. rewrite EO in H. simpl in H. rewrite KO in H. apply str_eqb_spec, H.
+Qed.
+
+Definition wf_chart_b (sc : chart) : bool :=
+  match root sc with
+  | None => false
+  | Some r =>
+      ostr_eqb (parent_for sc r) None && chk_ne sc && chk_names sc && anc_depth_okb sc
+      && chk_pc1 sc && chk_pc2 sc && chk_nodup sc && chk_desc sc && chk_one_root sc r
+      && chk_states sc && chk_trans sc
+  end.
+
+Theorem wf_chart_b_sound sc : wf_chart_b sc = true -> exists r, WF sc r.
+Proof.
+  unfold wf_chart_b. destruct (root sc) as [r|] eqn:Er; [|discriminate]. intros H. exists r.
+  repeat (apply andb_true_iff in H; destruct H as [H ?]).
+  split; [exact Er|]. split; [apply ostr_eqb_iff; assumption|].
+  split; [apply chk_ne_sound; assumption|]. split; [apply chk_names_sound; assumption|].
+  split; [apply anc_depth_okb_sound; assumption|]. split; [apply chk_pc_sound; assumption|].
+  split; [apply chk_nodup_sound; assumption|]. split; [apply chk_desc_sound; assumption|].
+  split; [apply chk_one_root_sound; assumption|]. split; [apply chk_composite_sound; assumption|].
+  split; [apply chk_initial_sound; assumption|]. split; [apply chk_region_sound; assumption|].
+  split; [apply chk_history_sound; assumption|]. split; [apply chk_cross_sound; assumption|].
+  apply chk_target_sound; assumption.
+Qed.
+
+(* ================================================================== the main theorems for checked charts *)
+Section Checked.
+  Variable ctx : Type.
+  Variable X : Type.
+  Variable exec_code : call ctx -> ctx -> option (ctx * list event).
+  Variable eval_code : call ctx -> ctx -> option bool.
+  Variable emit : Z -> meta -> X -> X * option err.
+  Variable sc : chart.
+
+  Theorem C02_step_wf r : WF sc r ->
+    forall fuel now (s s' : mstate ctx X) res,
+      Inv ctx sc (m_i s) ->
+      execute_once ctx X exec_code eval_code emit sc fuel now s = (s', inl res) ->
+      Inv ctx sc (m_i s').
+  Proof.
+    intros (H1 & H2 & H3 & H4 & H5 & H6 & H7 & H8 & H9 & H10 & H11 & H12 & H13 & H14 & H15).
+    exact (C02_step ctx X exec_code eval_code emit sc r H1 H2 H3 H4 H5 H6 H7 H8 H9 H10 H11 H12 H13 H14 H15).
+  Qed.
+
+  Theorem C02_run_wf r : WF sc r ->
+    forall ops (s : mstate ctx X) ms (s' : mstate ctx X),
+      C05Proofs.runs ctx X exec_code eval_code emit sc ops s ms s' ->
+      Inv ctx sc (m_i s) -> Inv ctx sc (m_i s').
+  Proof.
+    intros (H1 & H2 & H3 & H4 & H5 & H6 & H7 & H8 & H9 & H10 & H11 & H12 & H13 & H14 & H15).
+    exact (C02_run ctx X exec_code eval_code emit sc r H1 H2 H3 H4 H5 H6 H7 H8 H9 H10 H11 H12 H13 H14 H15).
+  Qed.
+
+  (* the headline statement: after every normally returning execute_once of a run that starts in the
+     initial state the configuration is empty (not yet initialised / final) or legal and stable *)
+  Theorem C02_run_checked : wf_chart_b sc = true ->
+    forall ops id now ignore (c0 : ctx) x tr ms (s' : mstate ctx X),
+      C05Proofs.runs ctx X exec_code eval_code emit sc ops (mkM (init_istate id now ignore c0) x tr) ms s' ->
+      i_config (m_i s') = []
+      \/ (i_initialized (m_i s') = true
+          /\ legal_b sc (i_config (m_i s')) = true
+          /\ create_stabilization_step ctx sc (m_i s') = None).
+  Proof.
+    intros Hwf ops id now ignore c0 x tr ms s' Hrun.
+    destruct (wf_chart_b_sound sc Hwf) as (r & HWF).
+    assert (Inv ctx sc (m_i s')) as [_ HI].
+    { eapply (C02_run_wf r HWF); [exact Hrun|].
+      split; [|left; split; reflexivity]. intros h l p Hl. simpl in Hl. discriminate. }
+    destruct HI as [[_ Hc]|[Hi [Hc|[Hl Hs]]]]; [left; exact Hc|left; exact Hc|right].
+    split; [exact Hi|]. split; [apply C02_legal_b_sound, Hl|apply C02_stable_iff, Hs].
+  Qed.
+
+  Theorem C02_step_checked : wf_chart_b sc = true ->
+    forall fuel now (s s' : mstate ctx X) res,
+      Inv ctx sc (m_i s) ->
+      execute_once ctx X exec_code eval_code emit sc fuel now s = (s', inl res) ->
+      Inv ctx sc (m_i s').
+  Proof.
+    intros Hwf. destruct (wf_chart_b_sound sc Hwf) as (r & HWF). exact (C02_step_wf r HWF).
+  Qed.
+End Checked.
+
+(* ================================================================== non-vacuity: a concrete chart *)
+(* root > { A, P (orthogonal) > { R1 > { r1a, r1b, h1 (shallow history) },
+                                  R2 > { Q (orthogonal, nested) > { Q1 > { q1a, q1b },
+                                                                    Q2 > { q2a, q2b, hd (deep history, initial) } },
+                                         r2z } },
+            F (final) }
+   with a transition from A (outside P) to q1b (nested in region Q1 of Q in region R2 of P), a transition
+   from outside into the history state h1, three transitions on the same event in three regions. *)
+Module C02Example.
+  Open Scope string_scope.
+
+  Definition c02_chart : chart :=
+    let mk n k i m := (n, mkState n k i m None None [] [] []) in
+    let tr s t e := mkTrans s t e None None 0 [] [] [] in
+    mkChart "c02 example" None None
+      [mk "root" KCompound (Some "A") None; mk "A" KBasic None None; mk "P" KOrthogonal None None;
+       mk "R1" KCompound (Some "r1a") None; mk "r1a" KBasic None None; mk "r1b" KBasic None None;
+       mk "h1" KShallow None (Some "r1a");
+       mk "R2" KCompound (Some "Q") None; mk "Q" KOrthogonal None None;
+       mk "Q1" KCompound (Some "q1a") None; mk "q1a" KBasic None None; mk "q1b" KBasic None None;
+       mk "Q2" KCompound (Some "hd") None; mk "q2a" KBasic None None; mk "q2b" KBasic None None;
+       mk "hd" KDeep None (Some "q2a");
+       mk "r2z" KBasic None None; mk "F" KFinal None None]
+      [("root", None); ("A", Some "root"); ("P", Some "root"); ("R1", Some "P"); ("r1a", Some "R1");
+       ("r1b", Some "R1"); ("h1", Some "R1"); ("R2", Some "P"); ("Q", Some "R2"); ("Q1", Some "Q");
+       ("q1a", Some "Q1"); ("q1b", Some "Q1"); ("Q2", Some "Q"); ("q2a", Some "Q2"); ("q2b", Some "Q2");
+       ("hd", Some "Q2"); ("r2z", Some "R2"); ("F", Some "root")]
+      [(None, ["root"]); (Some "root", ["A"; "P"; "F"]); (Some "P", ["R1"; "R2"]);
+       (Some "R1", ["r1a"; "r1b"; "h1"]); (Some "R2", ["Q"; "r2z"]); (Some "Q", ["Q1"; "Q2"]);
+       (Some "Q1", ["q1a"; "q1b"]); (Some "Q2", ["q2a"; "q2b"; "hd"])]
+      [tr "A" (Some "q1b") (Some "deep");
+       tr "A" (Some "h1") (Some "hist");
+       tr "r1a" (Some "r1b") (Some "e"); tr "q1a" (Some "q1b") (Some "e"); tr "q2a" (Some "q2b") (Some "e");
+       tr "Q" (Some "r2z") (Some "out"); tr "r2z" (Some "hd") (Some "back");
+       tr "P" (Some "A") (Some "up"); tr "A" (Some "F") (Some "stop"); tr "r1b" None (Some "e")].
+
+  Example c02_chart_wf : wf_chart_b c02_chart = true.
+  Proof. vm_compute. reflexivity. Qed.
+
+  (* the Section WF hypotheses hold of this chart *)
+  Example c02_chart_WF : exists r, WF c02_chart r.
+  Proof. apply wf_chart_b_sound, c02_chart_wf. Qed.
+
+  (* a chart with a transition between sibling regions (WF7a) is rejected *)
+  Example c02_cross_rejected :
+    wf_chart_b (mkChart "x" None None (c_states c02_chart) (c_parent c02_chart) (c_children c02_chart)
+                        [mkTrans "r1a" (Some "r2z") None None None 0 [] [] []]) = false.
+  Proof. vm_compute. reflexivity. Qed.
+
+  (* the model run on the example (all code succeeds, no listener) *)
+  Definition ex_exec (c : call unit) (x : unit) : option (unit * list event) := Some (x, []).
+  Definition ex_eval (c : call unit) (x : unit) : option bool := Some true.
+  Definition ex_emit (t : Z) (m : meta) (x : unit) : unit * option err := (x, None).
+
+  Fixpoint ex_run (evs : list (option string)) (s : mstate unit unit) : list (list name + err) :=
+    match evs with
+    | [] => []
+    | oe :: rest =>
+        let s1 := match oe with
+                  | Some e => fst (queue unit unit (mkEvent External e []) s)
+                  | None => s
+                  end in
+        match execute_once unit unit ex_exec ex_eval ex_emit c02_chart 30 0 s1 with
+        | (s2, inl _) => inl (configuration c02_chart (i_config (m_i s2))) :: ex_run rest s2
+        | (s2, inr e) => [inr e]
+        end
+    end.
+  Definition ex_s0 : mstate unit unit := mkM (init_istate 0 0 false tt) tt [].
+
+  Example c02_example_run :
+    ex_run [None; Some "deep"; Some "e"; Some "out"; Some "back"; Some "up"; Some "hist"; Some "up";
+            Some "stop"; Some "e"] ex_s0
+    = [inl ["root"; "A"];
+       inl ["root"; "P"; "R1"; "R2"; "Q"; "r1a"; "Q1"; "Q2"; "q1b"; "q2a"];   (* both regions of P, both of Q *)
+       inl ["root"; "P"; "R1"; "R2"; "Q"; "r1b"; "Q1"; "Q2"; "q1b"; "q2b"];   (* two simultaneous transitions *)
+       inl ["root"; "P"; "R1"; "R2"; "r1b"; "r2z"];
+       inl ["root"; "P"; "R1"; "R2"; "Q"; "r1b"; "Q1"; "Q2"; "q1a"; "q2b"];   (* deep history restored q2b *)
+       inl ["root"; "A"];
+       inl ["root"; "P"; "R1"; "R2"; "Q"; "r1b"; "Q1"; "Q2"; "q1a"; "q2b"];   (* shallow history restored r1b *)
+       inl ["root"; "A"];
+       inl [];                                                                (* final *)
+       inl []].
+  Proof. vm_compute. reflexivity. Qed.
+
+  (* the theorem instantiated: every run of the example ends empty or legal and stable *)
+  Example c02_example_theorem :
+    forall ops ms s',
+      C05Proofs.runs unit unit ex_exec ex_eval ex_emit c02_chart ops ex_s0 ms s' ->
+      i_config (m_i s') = []
+      \/ (i_initialized (m_i s') = true /\ legal_b c02_chart (i_config (m_i s')) = true
+          /\ create_stabilization_step unit c02_chart (m_i s') = None).
+  Proof. intros ops ms s'. apply C02_run_checked. exact c02_chart_wf. Qed.
+End C02Example.
+
+Print Assumptions C02_legal_b_sound.
+Print Assumptions C02_Pb_sound.
+Print Assumptions C02_stable_iff.
+Print Assumptions C02_macro_end_stable.
+Print Assumptions C02_final_absorbing.
+Print Assumptions C02_legal_stable.
+Print Assumptions wk_stable_legal.
+Print Assumptions C02_step.
+Print Assumptions C02_run.
+Print Assumptions wf_chart_b_sound.
+Print Assumptions C02_step_checked.
+Print Assumptions C02_run_checked.
+Print Assumptions C02Example.c02_example_theorem.
